@@ -103,9 +103,18 @@ class Check:
                 self.replay_path = argv[i + 1]
                 i += 1
             i += 1
+        self.replay_doc = None
+        seed_env = os.environ.get("VERIF_SEED", "0") or 0
+        if self.replay_path:
+            # --replay: re-run the check with the seed and tier recorded in the
+            # replay file and say whether the same violation comes back
+            with open(self.replay_path) as f:
+                self.replay_doc = json.load(f)
+            tier = self.replay_doc.get("tier", tier)
+            seed_env = self.replay_doc.get("seed", seed_env)
         self.tier = tier if tier in ("quick", "thorough") else "quick"
         self.thorough = self.tier == "thorough"
-        self.seed = int(os.environ.get("VERIF_SEED", "0") or 0)
+        self.seed = int(seed_env)
         self.rng = random.Random(self.seed)
         self.t0 = time.time()
         self.evaluations = 0
@@ -346,6 +355,15 @@ class Check:
                   self.pid, self.tier, self.seed, self.evaluations,
                   len(self.distinct), self.states, self.traces_validated,
                   len(self.violations), len(self.known_hits), wall))
+        if self.replay_doc is not None:
+            want = (self.replay_doc.get("clause"), self.replay_doc.get("key"))
+            hit = [v for v in self.violations
+                   if (v["clause"], v["key"]) == want]
+            print("REPLAY %s: clause=%s key=%s %s" % (
+                self.replay_path, want[0], want[1],
+                "REPRODUCED (%d times)" % len(hit) if hit
+                else "not reproduced on this tree"))
+            return 1 if hit else 0
         return 1 if self.violations else 0
 
 
